@@ -33,6 +33,22 @@ type props struct {
 
 var noScore = props{scoreLevel: -1}
 
+// heavy use: 4,200 repetitions of a query on one object (above the thresholds 16, 256, 1000,
+// 1024, 2048 and 4096 at which a "hot object" optimisation would plausibly start), on every vector at the base
+// decoders and on every 16th vector (by hash of its text) elsewhere
+var (
+	heavyRounds = 4200
+	heavyCases  int64
+)
+
+func heavyPick(s string) bool {
+	h := uint32(2166136261)
+	for i := 0; i < len(s); i++ {
+		h = (h ^ uint32(s[i])) * 16777619
+	}
+	return h%16 == 0
+}
+
 // safeParallel runs fn(i) on all cores; a panic inside fn (library code panicking on a case the
 // harness considered valid) is recorded as a violation of the running property.
 func safeParallel(r *ev.Run, n int, fn func(i int)) {
@@ -351,6 +367,30 @@ func evalDecoded(r *ev.Run, P props, st *enumStats, c *dcase) any {
 				}
 			}
 		}
+	}
+	if (P.scoreLevel >= 0 || P.grid || P.neutral) && (c.level == 0 || heavyPick(c.s)) {
+		// heavy use (round 6: memos that start only after 16 / 1000 / 1024 calls on one object): the
+		// same queries 1,100 more times on this object; every answer must stay what it was
+		for lv := c.level; lv >= 0; lv-- {
+			sub := lib.Sub(obj, lv)
+			last := scores[lv]
+			sev0, _ := lib.Severity(sub)
+			sev := sev0
+			for i := 0; i < heavyRounds; i++ {
+				last = lib.Score(sub)
+				sev, _ = lib.Severity(sub)
+			}
+			if sev != sev0 {
+				r.Violate(ev.Violation{Kind: "severity-changes-under-repetition", Case: with(c.m(), "level", spec.LevelNames[lv]), Observed: fmt.Sprintf("%v after %d further Severity() calls on the same object", sev, heavyRounds), Expected: fmt.Sprintf("%v, what the first call returned", sev0)})
+				break
+			}
+			if last != scores[lv] && !(math.IsNaN(last) && math.IsNaN(scores[lv])) {
+				r.Violate(ev.Violation{Kind: "score-changes-under-repetition", Case: with(c.m(), "level", spec.LevelNames[lv]), Observed: fmt.Sprintf("%v after %d further Score() calls on the same object", last, heavyRounds), Expected: fmt.Sprintf("%v, what the first call returned", scores[lv]),
+					GoTest: goTest(c, fmt.Sprintf("first := m%s.Score()\nfor i := 0; i < %d; i++ { m%s.Score() }\nt.Log(first, m%s.Score())", accessor(c.level, lv), heavyRounds, accessor(c.level, lv), accessor(c.level, lv)))})
+				break
+			}
+		}
+		atomic.AddInt64(&heavyCases, 1)
 	}
 	if P.neutral {
 		checkNeutral(r, c, scores)
@@ -720,6 +760,37 @@ func scoreSequences(r *ev.Run, ver, lv int) {
 					t[m.Name] = c.Code
 					checkScoreOf(r, ver, level, lv, bg.ver, t, o, []string{"Decode(" + s0 + ")", "Score() and Severity() of every view", fmt.Sprintf("field %s assigned the value for code %s", m.Name, c.Code), "Score()"})
 					n++
+					// the same with the higher views asked again after the assignment and before the
+					// checked level (round 6, C01-B-r6: an environmental Score() that writes the Modified
+					// metrics through an alias into the base metrics once it was scored without them)
+					if lv < level {
+						o = fresh()
+						for q := 0; q <= level; q++ {
+							lib.Score(lib.Sub(o, q))
+						}
+						lib.SetField(o, m.Name, en.Consts[ci])
+						for q := level; q > lv; q-- {
+							lib.Score(lib.Sub(o, q))
+							lib.Severity(lib.Sub(o, q))
+							lib.Observe(lib.Sub(o, q))
+						}
+						checkScoreOf(r, ver, level, lv, bg.ver, t, o, []string{"Decode(" + s0 + ")", "Score() of every view", fmt.Sprintf("field %s assigned the value for code %s", m.Name, c.Code), "Score(), Severity(), GetError(), Encode() of the higher views", "Score()"})
+						n++
+					}
+					// heavy use before the assignment (round 6: a memo that only starts after 16 / 1000 /
+					// 1024 identical queries and whose key misses something)
+					if ci == len(m.Codes)-1 || (ci == len(m.Codes)-2 && m.Codes[len(m.Codes)-1].Code == tok0[m.Name]) {
+						o = fresh()
+						for i := 0; i < heavyRounds; i++ {
+							for q := 0; q <= level; q++ {
+								lib.Score(lib.Sub(o, q))
+								lib.Severity(lib.Sub(o, q))
+							}
+						}
+						lib.SetField(o, m.Name, en.Consts[ci])
+						checkScoreOf(r, ver, level, lv, bg.ver, t, o, []string{"Decode(" + s0 + ")", fmt.Sprintf("Score() and Severity() of every view, %d times", heavyRounds), fmt.Sprintf("field %s assigned the value for code %s", m.Name, c.Code), "Score()"})
+						n++
+					}
 				}
 			}
 			// (a') the same on an object that was never decoded: a constructor result whose exported
@@ -821,26 +892,40 @@ func scoreSequences(r *ev.Run, ver, lv int) {
 			}
 			// (b) v3: query, assign the other version, query again
 			if ver == 3 {
-				o := fresh()
-				lib.Score(o)
-				other, ov := "3.0", 1
-				if bg.ver == "3.0" {
-					other, ov = "3.1", 2
+				for _, rounds := range []int{1, heavyRounds} {
+					o := fresh()
+					for i := 0; i < rounds; i++ {
+						for q := level; q >= 0; q-- {
+							lib.Score(lib.Sub(o, q))
+							lib.Severity(lib.Sub(o, q))
+						}
+					}
+					other, ov := "3.0", 1
+					if bg.ver == "3.0" {
+						other, ov = "3.1", 2
+					}
+					lib.SetV3Ver(o, ov)
+					checkScoreOf(r, ver, level, lv, other, tok0, o, []string{"Decode(" + s0 + ")", fmt.Sprintf("Score() and Severity() of every view, %d times", rounds), "Ver assigned " + other, "Score()"})
+					n++
 				}
-				lib.SetV3Ver(o, ov)
-				checkScoreOf(r, ver, level, lv, other, tok0, o, []string{"Decode(" + s0 + ")", "Score()", "Ver assigned " + other, "Score()"})
-				n++
 			}
 			// (c) query, replace the embedded lower-level object by that of another decoded vector, query again
 			if level >= 1 {
 				ob := bgs[(bi+1)%len(bgs)]
 				otok := lang.Project(ver, level, ob.tok)
-				o2, _, _ := lib.DecodeNew(ver, level, canonicalWritten(ver, level, ob.ver, otok))
-				o := fresh()
-				if o2 != nil {
-					lib.Score(o)
-					for q := 0; q < level; q++ {
-						lib.Score(lib.Sub(o, q))
+				for _, rounds := range []int{0, 1, heavyRounds} {
+					o2, _, _ := lib.DecodeNew(ver, level, canonicalWritten(ver, level, ob.ver, otok))
+					o := fresh()
+					if o2 == nil {
+						continue
+					}
+					for i := 0; i < rounds; i++ {
+						lib.Score(o)
+						lib.Severity(o)
+						for q := 0; q < level; q++ {
+							lib.Score(lib.Sub(o, q))
+							lib.Severity(lib.Sub(o, q))
+						}
 					}
 					replaceEmbedded(o, o2)
 					t := copyTok(tok0)
@@ -850,8 +935,69 @@ func scoreSequences(r *ev.Run, ver, lv int) {
 							t[m.Name] = c
 						}
 					}
-					checkScoreOf(r, ver, level, lv, ob.ver, t, o, []string{"Decode(" + s0 + ")", "Score() of every view", "embedded lower-level object replaced by that of another decoded vector", "Score()"})
+					checkScoreOf(r, ver, level, lv, ob.ver, t, o, []string{"Decode(" + s0 + ")", fmt.Sprintf("Score() and Severity() of every view, %d times", rounds), "embedded lower-level object replaced by that of another decoded vector", "Score()"})
 					n++
+				}
+				// (c') the embedded object of the embedded object replaced (em.Temporal.Base = other.Base)
+				if level == 2 {
+					for _, rounds := range []int{0, 1} {
+						o2, _, _ := lib.DecodeNew(ver, 0, canonicalWritten(ver, 0, ob.ver, lang.Project(ver, 0, ob.tok)))
+						o := fresh()
+						if o2 == nil {
+							continue
+						}
+						for i := 0; i < rounds; i++ {
+							lib.Observe(o)
+							lib.Score(lib.Sub(o, 1))
+							lib.Score(lib.Sub(o, 0))
+						}
+						setEmbeddedBase(lib.SubField(o, 1), o2)
+						t := copyTok(tok0)
+						for _, m := range spec.UpTo(ver, 0) {
+							t[m.Name] = ob.tok[m.Name]
+						}
+						checkScoreOf(r, ver, level, lv, ob.ver, t, o, []string{"Decode(" + s0 + ")", fmt.Sprintf("every query, %d times", rounds), "the base object inside the embedded temporal object replaced by a separately decoded base object", "Score()"})
+						n++
+					}
+				}
+				// (c'') v2: the replacing lower-level object differs in which groups it has (round 6,
+				// C05-B-r6: a 'has a temporal group' flag kept on the wrong object)
+				if ver == 2 {
+					for _, withGroup := range []bool{false, true} {
+						// o: base (+ environmental group); the temporal group comes and goes with the replacement
+						own := lang.Project(2, 0, tok0)
+						if level == 2 {
+							for _, m := range spec.At(2, 2) {
+								own[m.Name] = tok0[m.Name]
+							}
+						}
+						if !withGroup {
+							for _, m := range spec.At(2, 1) {
+								own[m.Name] = tok0[m.Name]
+							}
+						}
+						so := canonicalWritten(2, level, "", own)
+						o, _, _ := lib.DecodeNew(2, level, so)
+						rtok := lang.Project(2, 0, ob.tok)
+						if withGroup {
+							for _, m := range spec.At(2, 1) {
+								rtok[m.Name] = ob.tok[m.Name]
+							}
+						}
+						sr := canonicalWritten(2, level-1, "", lang.Project(2, level-1, rtok))
+						o2, _, _ := lib.DecodeNew(2, level-1, sr)
+						if o == nil || o2 == nil || level != 2 {
+							continue
+						}
+						lib.Observe(o)
+						setEmbedded(o, o2)
+						t := copyTok(rtok)
+						for _, m := range spec.At(2, 2) {
+							t[m.Name] = tok0[m.Name]
+						}
+						checkScoreOf(r, ver, level, lv, "", t, o, []string{"e := Decode(" + so + ")", "every query on e", "t := a temporal decoder's Decode(" + sr + ")", "e.Temporal = t", "Score()"})
+						n++
+					}
 				}
 			}
 			// (d) a decoder that failed before recording anything, used again: whatever it accepts scores right
@@ -929,6 +1075,21 @@ func scoreSequences(r *ev.Run, ver, lv int) {
 	r.Add("score_sequences", n)
 	r.Add("evaluations", n)
 }
+
+// setEmbedded makes dst's embedded lower-level pointer point to src itself.
+func setEmbedded(dst, src any) {
+	dv := reflect.ValueOf(dst).Elem()
+	for i := 0; i < dv.NumField(); i++ {
+		f := dv.Type().Field(i)
+		if f.Anonymous && f.Type.Kind() == reflect.Ptr && f.Type == reflect.TypeOf(src) {
+			dv.Field(i).Set(reflect.ValueOf(src))
+			return
+		}
+	}
+}
+
+// setEmbeddedBase: dst is a temporal object; its embedded base pointer is set to src.
+func setEmbeddedBase(dst, src any) { setEmbedded(dst, src) }
 
 // replaceEmbedded makes dst's embedded lower-level pointer point to src's.
 func replaceEmbedded(dst, src any) {
